@@ -3,7 +3,7 @@
    Groups:  (1) the model MEETS THE ORACLE  (2) model = statement-level spec  (3) facts that pin the spec's
    vocabulary (runs)  (4) reading aids: unfoldings of the spec, named _unfold (definitional, no content of their own). *)
 From Coq Require Import List ZArith QArith Bool.
-From PV Require Import lib.Sx lib.Result model.Base model.BaseObj spec.SpecBase proofs.BaseFacts proofs.BaseObjFacts.
+From PV Require Import lib.Sx lib.Result model.Base model.BaseObj spec.SpecBase proofs.BaseFacts proofs.BaseObjFacts proofs.BaseComposeFacts proofs.BaseTotalFacts.
 Import ListNotations.
 
 (* ---------------- (1) the model meets the decidable property oracle, all inputs ---------------- *)
@@ -185,3 +185,124 @@ Example C19_example_oracle_rejects :
   ok_adjust 1 5 inp [[cz 25 35 [2%Z]; cz 5 15 [1%Z]]] = false /\
   ok_adjust 1 (inject_Z (-5)) inp [[cz 15 25 [2%Z]]] = true.
 Proof. vm_compute. repeat split. Qed.
+
+(* ---------------- wave 7: composition laws of adjust_caption_timing ---------------- *)
+(* adjust(skew1, off1) followed by adjust(skew2, off2) is ONE adjust with skew1*skew2 and off1*skew2 + off2, applied to
+   the captions that survive the first step (exact arithmetic; Leibniz equality: times are kept in lowest terms) *)
+Theorem C19_adjust_compose : forall sk1 off1 sk2 off2 caps,
+  adjust_lang sk2 off2 (adjust_lang sk1 off1 caps)
+  = adjust_lang (sk1 * sk2) (off1 * sk2 + off2) (filter (survives sk1 off1) caps).
+Proof. exact adjust_compose. Qed.
+Print Assumptions C19_adjust_compose.
+(* where the first step drops nothing, for all languages *)
+Theorem C19_adjust_langs_compose_kept : forall sk1 off1 sk2 off2 langs,
+  forallb (forallb (survives sk1 off1)) langs = true ->
+  adjust sk2 off2 (adjust sk1 off1 langs) = adjust (sk1 * sk2) (off1 * sk2 + off2) langs.
+Proof. exact adjust_langs_compose_kept. Qed.
+Print Assumptions C19_adjust_langs_compose_kept.
+(* two offsets add up *)
+Theorem C19_adjust_offsets_add : forall a b caps, forallb (survives 1 a) caps = true ->
+  adjust_lang 1 b (adjust_lang 1 a caps) = adjust_lang 1 (a + b) caps.
+Proof. exact adjust_offsets_add. Qed.
+Print Assumptions C19_adjust_offsets_add.
+(* an adjust that drops nothing is undone by the inverse affine map: the round trip is the identity adjust, which
+   keeps exactly the captions with a non-negative start, with times, nodes and order as they were *)
+Theorem C19_adjust_inverse : forall sk off caps, ~ sk == 0 -> forallb (survives sk off) caps = true ->
+  adjust_lang (/ sk) (- off / sk) (adjust_lang sk off caps) = adjust_lang 1 0 caps.
+Proof. exact adjust_inverse. Qed.
+Print Assumptions C19_adjust_inverse.
+Theorem C19_adjust_identity : forall caps,
+  Forall2 cap_equiv (adjust_lang 1 0 caps) (filter (fun c => Qle_bool 0 (c_start c)) caps).
+Proof. exact adjust_identity. Qed.
+Print Assumptions C19_adjust_identity.
+
+(* the hypotheses are satisfiable and needed: with a caption dropped by the first step the two sides differ *)
+Example C19_example_compose :
+  let caps := [cz 1000000 3000000 [1%Z]; cz 2000000 4000000 [2%Z]] in
+  forallb (survives (1 # 2) (inject_Z (-500000))) caps = true /\
+  adjust_lang 2 (inject_Z 1000000) (adjust_lang (1 # 2) (inject_Z (-500000)) caps) = caps /\
+  forallb (survives 1 (inject_Z (-1500000))) caps = false /\
+  adjust_lang 1 (inject_Z 1500000) (adjust_lang 1 (inject_Z (-1500000)) caps) = [cz 2000000 4000000 [2%Z]] /\
+  adjust_lang 1 (inject_Z (-1500000) + inject_Z 1500000) caps = caps.
+Proof. vm_compute. repeat split. Qed.
+
+(* ---------------- wave 7, round 2: merge without the hypothesis nodes_nonempty ---------------- *)
+(* EXACTLY which inputs merge_concurrent_captions rejects: merge() builds a Caption for every maximal run (also a run
+   of one) and Caption() refuses an empty node list, so a language is rejected iff some maximal run consists only of
+   captions whose node list is empty (merge_accepts, spec/SpecBase.v).  Under exactly that guard the function never
+   raises and returns the joined maximal runs; on every other input it raises Caption()'s error. *)
+Theorem C19_merge_never_raises_on_accepted : forall caps, merge_accepts caps = true ->
+  merge_lang caps = Ok (spec_merge_gen caps).
+Proof. exact merge_lang_accepted. Qed.
+Print Assumptions C19_merge_never_raises_on_accepted.
+Theorem C19_merge_error_branch : forall caps, merge_accepts caps = false -> merge_lang caps = Err ENodeListEmpty.
+Proof. exact merge_lang_rejected. Qed.
+Print Assumptions C19_merge_error_branch.
+Theorem C19_merge_raises_iff : forall caps, (exists e, merge_lang caps = Err e) <-> merge_accepts caps = false.
+Proof. exact merge_lang_raises_iff. Qed.
+Print Assumptions C19_merge_raises_iff.
+(* all languages *)
+Theorem C19_merge_concurrent_accepted : forall langs, forallb merge_accepts langs = true ->
+  merge_concurrent langs = Ok (map spec_merge_gen langs).
+Proof. exact merge_concurrent_accepted. Qed.
+Print Assumptions C19_merge_concurrent_accepted.
+Theorem C19_merge_concurrent_rejected : forall langs, forallb merge_accepts langs = false ->
+  merge_concurrent langs = Err ENodeListEmpty.
+Proof. exact merge_concurrent_rejected. Qed.
+Print Assumptions C19_merge_concurrent_rejected.
+(* the statement's domain lies inside the guard, and there the general result is the statement's map join (runs) *)
+Theorem C19_domain_is_accepted : forall caps, nodes_nonempty caps = true ->
+  merge_accepts caps = true /\ spec_merge_gen caps = spec_merge_lang caps.
+Proof. intros caps H. split; [exact (nodes_nonempty_accepted caps H)|exact (spec_merge_gen_eq caps H)]. Qed.
+Print Assumptions C19_domain_is_accepted.
+
+(* ---------------- laws of merge, for every input the function accepts ---------------- *)
+(* merging again changes nothing (the result of any successful merge is accepted and returned as it is) *)
+Theorem C19_merge_idempotent_every_input : forall caps m, merge_lang caps = Ok m -> merge_lang m = Ok m.
+Proof. exact merge_lang_idempotent_gen. Qed.
+Print Assumptions C19_merge_idempotent_every_input.
+(* all text in order: the node values of a language, line breaks left out, are the same before and after *)
+Theorem C19_merge_keeps_text : forall caps m, merge_lang caps = Ok m -> lang_text m = lang_text caps.
+Proof. exact merge_lang_keeps_text. Qed.
+Print Assumptions C19_merge_keeps_text.
+(* one caption per maximal run, in the order of the runs, carrying the times of the run's first caption *)
+Theorem C19_merge_heads_in_order : forall caps,
+  map (fun c => (c_start c, c_end c)) (spec_merge_gen caps) = map (fun r => (c_start (fst r), c_end (fst r))) (runs caps).
+Proof. exact merge_heads_in_order. Qed.
+Print Assumptions C19_merge_heads_in_order.
+(* merge commutes with adjust for a non-zero skew when adjust drops nothing *)
+Theorem C19_merge_adjust_commute : forall sk off caps m, ~ sk == 0 -> forallb (survives sk off) caps = true ->
+  merge_lang caps = Ok m -> merge_lang (adjust_lang sk off caps) = Ok (adjust_lang sk off m).
+Proof. exact merge_lang_adjust_commute. Qed.
+Print Assumptions C19_merge_adjust_commute.
+
+(* a run of one emptied caption is rejected; an emptied caption at the head of a run contributes no line break;
+   the hypotheses of the commutation law matter: with skew 0 all spans collapse, with a dropped run A B A becomes A A *)
+Example C19_example_guard :
+  merge_accepts [cz 0 1 [7%Z]; cz 2 3 []] = false /\ merge_lang [cz 0 1 [7%Z]; cz 2 3 []] = Err ENodeListEmpty /\
+  merge_accepts [cz 0 1 []; cz 0 1 [7%Z]; cz 0 1 []] = true /\
+  merge_lang [cz 0 1 []; cz 0 1 [7%Z]; cz 0 1 []] = Ok [cz 0 1 [7%Z; brk]] /\
+  nodes_nonempty [cz 0 1 []; cz 0 1 [7%Z]] = false.
+Proof. vm_compute. repeat split. Qed.
+Example C19_example_commute_needs_hypotheses :
+  let caps := [cz 5 6 [1%Z]; cz 0 1 [2%Z]; cz 5 6 [3%Z]] in
+  merge_lang caps = Ok caps /\
+  merge_lang (adjust_lang 1 (inject_Z (-2)) caps) = Ok [cz 3 4 [1%Z; brk; 3%Z]] /\
+  adjust_lang 1 (inject_Z (-2)) caps = [cz 3 4 [1%Z]; cz 3 4 [3%Z]] /\
+  merge_lang (adjust_lang 0 5 caps) = Ok [cz 5 5 [1%Z; brk; 2%Z; brk; 3%Z]] /\
+  merge_lang (adjust_lang 2 1 caps) = Ok (adjust_lang 2 1 caps).
+Proof. vm_compute. repeat split. Qed.
+
+(* ---------------- heap level (wave 7, round 2) ---------------- *)
+(* the heap after adjust_caption_timing, for EVERY alias structure (one Caption object reachable from several languages
+   or listed several times in one list - the shape behind fix C19-adjust-shared-caption-objects): every listed object
+   holds its initial times retimed exactly once, and set_captions gives every language, in order, the references whose
+   retimed start is not negative.  (C19_adjust_objects_value above is the same fact seen through get_captions.) *)
+Theorem C19_adjust_objects_heap : forall skew off h0 langs,
+  (forall ids k, In ids langs -> In k ids -> (k < length h0)%nat) ->
+  exists h' adj',
+    adjust_obj_langs true skew off (h0, []) langs = ((h', adj'), map (filter (keep skew off h0)) langs) /\
+    length h' = length h0 /\
+    forall ids k, In ids langs -> In k ids -> deref h' k = retime skew off (deref h0 k).
+Proof. exact adjust_objs_heap. Qed.
+Print Assumptions C19_adjust_objects_heap.
